@@ -616,4 +616,34 @@ def run(tier):
     from . import blockindent
     rep.floor("explicit indentation cases", blockindent.check(rep, F), 80)
     rep.floor("end-of-input tests that append the implied final break", blockindent.implied_final_break(rep, F), 1)
+    breaks_are_single_line_feeds(rep, F)
     return rep
+
+
+def breaks_are_single_line_feeds(rep, F, rule="break-consumed-as-a-whole"):
+    """'reports its content lines verbatim', 'keeps blank lines': a line break of the input (LF, CR or CR LF) is one break of the scalar.  The
+    functions of the block-scalar family consume breaks only through the helpers that take a CR LF pair as a whole (read_break, skip_break,
+    skip_linebreak); a direct skip_nl - which moves over one character - counts CR LF as two breaks (blank lines are doubled)."""
+    S_ = SCANNER + "::"
+    helpers = {S_ + "read_break", S_ + "skip_break", S_ + "skip_linebreak", S_ + "skip_nl"}
+    fam, work = set(), [FN]
+    while work:
+        k = work.pop()
+        if k in fam or k in helpers or k not in F.fns:
+            continue
+        fam.add(k)
+        for bb, t, ck, fr in F.fns[k].calls():
+            if ck and ck.startswith(S_) and ck not in fam:
+                work.append(ck)
+    n = 0
+    for k in sorted(fam):
+        g = F.fns[k]
+        whole = [ck for bb, t, ck, fr in g.calls() if ck in helpers and not ck.endswith("::skip_nl")]
+        n += len(whole)
+        for bb, t, ck, fr in g.calls():
+            if ck == S_ + "skip_nl":
+                rep.bad(rule, short(k), "a line break inside a block scalar is consumed with skip_nl (one character) instead of read_break / skip_break: a CR LF "
+                        "pair counts as two breaks", site=site(g, t["sp"]))
+        if whole:
+            rep.ok(rule, short(k))
+    rep.floor("break-consuming calls in the block scalar functions", n, 3)
